@@ -23,6 +23,8 @@ THEOREMS = [
        clone_preferred parse_q parse_mime enc c ae o = (Sent l b ch, c') ->
        ch = Identity \/ (exists (a : alg) (h : bytes) (q : qclass), ch = Alg a /\ ae = Some h /\ to_str_ok h = true /\
                          In (alg_name a, q) (list_header parse_q h) /\ q <> QZero)"""),
+    ("chosen_occurs_in_header", SV + r""" (c : cresp) (ae : option bytes) (o : options) (l : option bytes) (b : bytes) (a : alg) (c' : cresp),
+       clone_preferred parse_q parse_mime enc c ae o = (Sent l b (Alg a), c') -> exists h, ae = Some h /\ substr (alg_name a) h"""),
     ("never_refused", SV + r""" (c : cresp) (ae : option bytes) (o : options) (l : option bytes) (b : bytes) (a : alg) (c' : cresp),
        clone_preferred parse_q parse_mime enc c ae o = (Sent l b (Alg a), c') ->
        ~ (forall q : qclass, In (alg_name a, q) (header_values parse_q ae) -> q = QZero)"""),
@@ -543,7 +545,7 @@ TRUSTED = ["modelled: utils/src/parse.rs list_header (+ trim_ows); src/comprash.
            "option choice; http::HeaderValue::to_str as visible-ASCII-or-TAB",
            "standard decoders in the harness: flate2 1.x MultiGzDecoder, brotli 7 BrotliDecompress, zstd 0.13 decode_all (harness/src/c00pipe.rs decode_body)"]
 LEVEL_TEXT = ("Coq theorems about a byte-level model of list_header and a transcription of clone_preferred, for every header value, body, content type, "
-              "option set and (memo cell) every interleaving: chosen coding is identity or listed with quality != 0.0 (chosen_is_listed, never_refused); "
+              "option set and (memo cell) every interleaving: chosen coding is identity or listed with quality != 0.0 (chosen_is_listed, never_refused; for arbitrary text its name occurs in the header: chosen_occurs_in_header); "
               "identity;q=0 is honoured past the floor (identity_refusal_honoured); < 50 bytes / opt-out / uncompressible content type => identity "
               "(floors, floors_content_type); the label names exactly the encoder whose output is sent and the memo cell keeps it (label_matches_body, "
               "memoised_bytes_reused); 406 <=> identity refused and nothing else applies (not_acceptable_iff); preferred-then-zstd-br-gzip order "
